@@ -17,7 +17,7 @@ RULE = (
     "tuples of EXECUTED elementary moves for which a reverse move existed and the detailed-balance identity was evaluated"
 )
 FAULT_KEYS = ["adversarial_choice", "row_permute", "cache_flush", "cache_growth", "cache_created", "exchange_accepted", "exchange_rejected"]
-PROBE_KEYS = [
+PROBE_KEYS = ["choice_fidelity_checked",
     "db_mutation_pairs", "db_structural_pairs", "db_exchange_pairs", "dup_state_move", "heated_move",
     "multiallelic_move", "recombination_move", "dosage_move", "zero_option_interval", "order_probe",
     "underflow_skip", "sweeps_checked", "partitions_checked",
